@@ -49,6 +49,7 @@ Fixpoint val_eqb (a b : val) {struct a} : bool :=
   | VAnyNil, VAnyNil => true
   | VAny t x, VAny t' y => ty_eqb t t' && val_eqb x y
   | VNil, VNil => true
+  | VMarsh x, VMarsh y => bytes_eqb x y
   | VList l, VList l' =>
     (fix go (l l' : list val) : bool :=
        match l, l' with
@@ -121,4 +122,8 @@ Definition spec_roundtrip (c : ecase) : bool :=
 
 (* ---- non-vacuity: the hypotheses of C11_roundtrip_partial hold on the case ---------------------- *)
 Definition premise_ok (c : ecase) : bool :=
-  wf_opts_b (c_opts c) && is_ok (encode (c_opts c) (c_ty c) (c_val c)) && supported (c_opts c) (c_ty c) (c_val c).
+  wf_opts_b (c_opts c) && is_ok (encode (c_opts c) (c_ty c) (c_val c)) && supported (c_opts c) (c_ty c) (c_val c) &&
+  marsh_inv_on (c_opts c) (c_val c).      (* the hypothesis marsh_inv, on the marshaler states of the case *)
+
+(* the case has a value of a Marshaler type somewhere (coverage counter) *)
+Definition has_marsh (c : ecase) : bool := negb (is_nil (marsh_states (c_val c))).
